@@ -54,7 +54,7 @@ def _states(ctx, rng):
         yield st
     for row in gen.pairwise(rng, gen.PAIRWISE_DOMAINS):
         yield row
-    for _ in range(2500 if quick else 300000):
+    for _ in range(2500 if quick else 1500000):
         yield gen.random_state(rng)
 
 
@@ -82,7 +82,7 @@ def generate(ctx, rng):
     if batch:
         yield ("batch", n), {"states": batch, "profile": None, "pending": False, "pseed": 1}
     # apply() issued while a refresh() of the same object is still waiting for its reply
-    for j in range(60 if ctx.tier == "quick" else 4000):
+    for j in range(60 if ctx.tier == "quick" else 20000):
         yield ("overlap", j), {"kind": "overlap", "start": gen.random_state(rng), "state": gen.random_state(rng),
                                "reply_delay": rng.choice([0.3, 0.5, 1.2]), "apply_at": rng.choice([0.05, 0.1, 0.25]),
                                "version": rng.choice([2, 3])}
